@@ -161,7 +161,7 @@ func reachedCoords(exec *fedlab.ExecServer, cfg *fedlab.Config, uni *fedlab.Univ
 			continue
 		}
 		a := w.Analyze(res.Data, c14lab.None, nil)
-		for k := range a.Seen {
+		for k := range a.Domain {
 			seen[k] = true
 		}
 	}
